@@ -502,11 +502,77 @@ for es in CONC_SETS:
 if windows_hit == 0:
     ck.inconclusive.append('S4 vacuous: no path used a stale read')
 
+# ------------------------------------------------------------------ S5: id counters after a reopen
+# GraphEngine::with_store / with_store_and_config scan the store for the highest node and edge id.  The keys here are concrete
+# text ("node:9", "node:9:out", "edge:10", ...) so the string handling of the scan (contains, strip_prefix, rsplit, parse) runs on
+# literals; id sets straddle a change in the number of digits.
+ck.declare('S5_reopen_never_reuses_an_id', 'with_store and with_store_and_config over stores holding nodes / edges with ids {7}, {9,10}, {2,10,9}, {99,100,5}',
+           'afterwards node_counter >= every stored node id and edge_counter >= every stored edge id (the next create_node / create_edge takes counter + 1, so no stored record is overwritten)')
+_keep = {k: ex.extra_models.pop(k) for k in ('GraphEngine::node_key', 'GraphEngine::edge_key', 'GraphEngine::outgoing_edges_key', 'GraphEngine::incoming_edges_key', 'core::str::parse', 'str::parse')}
+
+
+def m_scan(c):
+    pre = deref(c.st, c.args[1])
+    ks = [k for k in kv_of(c.st).keys if k.text is not None and k.text.startswith(pre.text)]
+    return Seq('std::string::String', list(ks))
+
+
+def m_parse_text(c):
+    s_ = deref(c.st, c.args[0])
+    if isinstance(s_, Str) and s_.text is not None:
+        if s_.text.isdigit() and int(s_.text) < (1 << 64):
+            return _ok(Int(U64(int(s_.text)), False), 'Result<u64, ParseIntError>')
+        return _err(Opaque('ParseIntError'), 'Result<u64, ParseIntError>')
+    raise Unsupported('parse::<u64> of a non-literal string')
+
+
+ex.extra_models.update({'TensorStore::scan': m_scan, 'core::str::parse': m_parse_text, 'str::parse': m_parse_text,
+                        'GraphEngine::rebuild_indexes_from_store': lambda c: Map('(IndexTarget, std::string::String)', 'BTreeMap<OrderedPropertyValue, Vec<u64>>', [], []),
+                        'GraphEngine::load_constraints_from_store': lambda c: Map('std::string::String', 'Constraint', [], []),
+                        'create_index_locks': lambda c: Seq('RwLock<()>', []),
+                        '<GraphEngineConfig as Default>::default': lambda c: c.st.fresh('GraphEngineConfig', 'cfg')})
+reopened = 0
+try:
+    for ids in ([7], [9, 10], [2, 10, 9], [99, 100, 5]):
+        for fn in ('with_store', 'with_store_and_config'):
+            st = ex.new_state()
+            keys = []
+            for i in ids:
+                keys += [f'node:{i}', f'node:{i}:out', f'node:{i}:in', f'edge:{i}']
+            store = Struct('TensorStore', {'kv': Map('std::string::String', 'TensorData', [Str(text=k) for k in keys], [td({}) for _ in keys])})
+            st.roots['store'] = store
+            args = [store] + ([st.fresh('GraphEngineConfig', 'cfg')] if fn.endswith('config') else [])
+            res = run(st, 'GraphEngine::' + fn, args)
+            ck.note_path_problem(res, f'{fn} ids={ids}')
+            for r in res:
+                wit = lambda m, ids=ids, fn=fn: {'graph_call': 'reopen', 'constructor': fn, 'ids': ids}
+                if r.status == 'panic':
+                    ck.require(ex, 'S5_reopen_never_reuses_an_id', r.pc, None, z3.BoolVal(False), wit, lambda m, w: 'reopen-panic')
+                    continue
+                if r.status != 'return':
+                    continue
+                reopened += 1
+                ge2 = r.retval
+                nc = ge2.fields[F('GraphEngine', 'node_counter')].fields['data'].load(0, None, r.st).v
+                ec = ge2.fields[F('GraphEngine', 'edge_counter')].fields['data'].load(0, None, r.st).v
+                ck.require(ex, 'S5_reopen_never_reuses_an_id', r.pc, None, z3.And(z3.UGE(nc, U64(max(ids))), z3.UGE(ec, U64(max(ids)))), wit, lambda m, w: 'id-reused-after-reopen')
+finally:
+    for k in ('TensorStore::scan', 'GraphEngine::rebuild_indexes_from_store', 'GraphEngine::load_constraints_from_store', 'create_index_locks', '<GraphEngineConfig as Default>::default'):
+        ex.extra_models.pop(k, None)
+    ex.extra_models.update(_keep)
+if reopened == 0:
+    ck.inconclusive.append('S5 vacuous: the constructors never returned')
+
 for v in ck.violations:
+    if v['witness'].get('graph_call') == 'reopen':
+        rep = Replay.call({'op': 'graph_reopen', **v['witness']})
+        v['native'] = rep
+        v['replayed'] = rep.get('violates')
+        continue
     rep = Replay.call({'op': 'graph_step', **v['witness']})
     v['native'] = rep
     v['replayed'] = rep.get('violates')
-ck.functions += ['GraphEngine::create_edge', 'GraphEngine::delete_edge', 'GraphEngine::delete_node', 'GraphEngine::add_edge_to_list', 'GraphEngine::remove_edge_from_list',
+ck.functions += ['GraphEngine::with_store', 'GraphEngine::with_store_and_config', 'GraphEngine::create_edge', 'GraphEngine::delete_edge', 'GraphEngine::delete_node', 'GraphEngine::add_edge_to_list', 'GraphEngine::remove_edge_from_list',
                  'GraphEngine::extract_edge_ids', 'GraphEngine::get_edge', 'GraphEngine::get_node', 'GraphEngine::get_edge_list', 'GraphEngine::node_exists']
 if __name__ == '__main__':
     ck.finish()
